@@ -2478,6 +2478,24 @@ impl StorageEngine {
                     if !expired_keys.is_empty() {
                         let mut shard_guard = shard.write().unwrap();
                         for key in expired_keys {
+                            // The index entry was read under the read lock and may be stale: the
+                            // key may have been overwritten without a TTL, persisted, or given a
+                            // later deadline since. Only the stored value's own deadline decides.
+                            match shard_guard.data.get(&key) {
+                                Some(stored_value) if stored_value.is_expired() => {}
+                                Some(stored_value) => {
+                                    // Still alive: drop the index entry if the TTL is gone
+                                    if stored_value.metadata.expires_at.is_none() {
+                                        shard_guard.expiring_keys.remove(&key);
+                                    }
+                                    continue;
+                                }
+                                None => {
+                                    shard_guard.expiring_keys.remove(&key);
+                                    continue;
+                                }
+                            }
+                            
                             if let Some(stored_value) = shard_guard.data.remove(&key) {
                                 shard_guard.expiring_keys.remove(&key);
                                 
